@@ -56,7 +56,7 @@ TFrame == UNCHANGED <<l, done, wpend, callow, pmust, pmay, pgmu, pgma, tagsSeen,
 
 
 RECURSIVE GeFrom(_, _)
-GeFrom(c, j) == IF j > Len(Rec) THEN [db |-> 0, r |-> <<>>]
+GeFrom(c, j) == IF j > Len(Rec) \/ Rec[j].e = "reset" THEN [db |-> 0, r |-> <<>>]
                 ELSE IF Rec[j].e = "ge" /\ Rec[j].c = c THEN Rec[j] ELSE GeFrom(c, j + 1)
 
 TRun ==
